@@ -187,6 +187,7 @@ func init() {
 			sweepLengthStructures(c, bd, true, visit)
 			sweepTinyBodies(c, ba, visit)
 			sweepLarge(c, visit)
+			sweepTypes(c, visit)
 			// all 65536 message type words in front of a fixed two-attribute body
 			body := ref.Encode(0, [12]byte{1, 2, 3, 4, 5, 6, 7, 8, 9, 10, 11, 12}, []ref.EncodeAttr{{Type: 0x8020, Value: []byte{1, 2, 3}}, {Type: 0x0020, Value: []byte{9}}})
 			in := &decodeInput{Fam: "typeword"}
